@@ -18,14 +18,14 @@ _PRIOR_CACHE = {}
 
 PRIOR_PALETTE = [
     # (poly_trend, n_offsets, k_prior, rv_unit, P unit, means)
-    {"poly_trend": 1, "n_offsets": 0, "k_prior": "default", "rv_unit": "km/s", "P_unit": "d", "v0_mean": 0.0},
-    {"poly_trend": 2, "n_offsets": 0, "k_prior": "default", "rv_unit": "km/s", "P_unit": "d", "v0_mean": 0.0},
-    {"poly_trend": 1, "n_offsets": 1, "k_prior": "default", "rv_unit": "km/s", "P_unit": "d", "v0_mean": 0.0},
-    {"poly_trend": 1, "n_offsets": 0, "k_prior": "normal", "rv_unit": "km/s", "P_unit": "d", "v0_mean": 3.5},
-    {"poly_trend": 3, "n_offsets": 2, "k_prior": "default", "rv_unit": "m/s", "P_unit": "d", "v0_mean": 0.0},
-    {"poly_trend": 2, "n_offsets": 0, "k_prior": "normal", "rv_unit": "m/s", "P_unit": "yr", "v0_mean": -120.0},
-    {"poly_trend": 1, "n_offsets": 0, "k_prior": "default", "rv_unit": "m/s", "P_unit": "yr", "v0_mean": 0.0},
-    {"poly_trend": 2, "n_offsets": 1, "k_prior": "default", "rv_unit": "km/s", "P_unit": "d", "v0_mean": 0.0},
+    {"poly_trend": 1, "n_offsets": 0, "k_prior": "default", "rv_unit": "km/s", "P_unit": "d", "v0_mean": 0.0, "width": 1.0},
+    {"poly_trend": 2, "n_offsets": 0, "k_prior": "default", "rv_unit": "km/s", "P_unit": "d", "v0_mean": 0.0, "width": 0.8},
+    {"poly_trend": 1, "n_offsets": 1, "k_prior": "default", "rv_unit": "km/s", "P_unit": "d", "v0_mean": 0.0, "width": 1.25},
+    {"poly_trend": 1, "n_offsets": 0, "k_prior": "normal", "rv_unit": "km/s", "P_unit": "d", "v0_mean": 3.5, "width": 0.6},
+    {"poly_trend": 3, "n_offsets": 2, "k_prior": "default", "rv_unit": "m/s", "P_unit": "d", "v0_mean": 0.0, "width": 1.0},
+    {"poly_trend": 2, "n_offsets": 0, "k_prior": "normal", "rv_unit": "m/s", "P_unit": "yr", "v0_mean": -120.0, "width": 1.5},
+    {"poly_trend": 1, "n_offsets": 0, "k_prior": "default", "rv_unit": "m/s", "P_unit": "yr", "v0_mean": 0.0, "width": 0.7},
+    {"poly_trend": 2, "n_offsets": 1, "k_prior": "default", "rv_unit": "km/s", "P_unit": "d", "v0_mean": 0.0, "width": 1.1},
 ]
 
 
@@ -52,15 +52,16 @@ def get_prior(spec):
     poly = spec["poly_trend"]
     with pm.Model():
         offs = [
-            xu.with_unit(pm.Normal(f"dv0_{i+1}", 1.5 * (i + 1) * scale, 5.0 * scale), vu)
+            xu.with_unit(pm.Normal(f"dv0_{i+1}", 1.5 * (i + 1) * scale * spec.get("width", 1.0), 5.0 * scale * spec.get("width", 1.0)), vu)
             for i in range(spec["n_offsets"])
         ]
         pars = {}
         if spec["k_prior"] == "normal":
             pars["K"] = xu.with_unit(pm.Normal("K", 1.0 * scale, 20.0 * scale), vu)
-        sig = [100.0 * scale * vu, 0.1 * scale * vu / u.day, 1e-3 * scale * vu / u.day**2][:poly]
+        w = spec.get("width", 1.0)  # each palette entry has its own widths: a value cached from another prior shows
+        sig = [100.0 * w * scale * vu, 0.1 * w * scale * vu / u.day, 1e-3 * w * scale * vu / u.day**2][:poly]
         if spec.get("v0_mean", 0.0) != 0.0:
-            pars["v0"] = xu.with_unit(pm.Normal("v0", spec["v0_mean"], 100.0 * scale), vu)
+            pars["v0"] = xu.with_unit(pm.Normal("v0", spec["v0_mean"], 100.0 * spec.get("width", 1.0) * scale), vu)
             if poly > 1:
                 pars["v1"] = xu.with_unit(pm.Normal("v1", 0.01 * scale, 0.1 * scale), vu / u.day)
             if poly > 2:
